@@ -20,4 +20,6 @@ c_Orders == {"le", "be"}
 c_PropNames == {}
 c_PropVals == {}
 c_Forbidden == {}
+c_TypeSetInh == {"Int16", "TimeStamp"}
+c_ObjListsInh == {<<A, B>>, <<A>>}
 ====
